@@ -60,9 +60,9 @@ CHECKS["C07"] = dict(
                 "one unbounded page (set equality and order), pagination by NextMarker (termination, each entry exactly once, page size), "
                 "and delimiter-less listing from an arbitrary marker.",
     harnesses=[
-        dict(name="H07-unpaged", pkgs=["./backend"], entry="backend.VfWalkUnpaged", native=True, reach=["listed"]),
-        dict(name="H07-paged", pkgs=["./backend"], entry="backend.VfWalkPaged", native=True, reach=["paged"]),
-        dict(name="H07-marker", pkgs=["./backend"], entry="backend.VfWalkMarker", native=True, reach=["listed"]),
+        dict(name="H07-unpaged", pkgs=["./backend"], entry="backend.VfWalkUnpaged", native=True, reach=["listed"], budget=dict(thorough="15m")),
+        dict(name="H07-paged", pkgs=["./backend"], entry="backend.VfWalkPaged", native=True, reach=["paged"], budget=dict(thorough="25m")),
+        dict(name="H07-marker", pkgs=["./backend"], entry="backend.VfWalkMarker", native=True, reach=["listed"], budget=dict(thorough="10m")),
         dict(name="H07-witness", pkgs=["./backend"], entry="backend.VfWalkWitness", witness=True),
     ],
     assumptions=["the file system lists directory entries sorted by name (os.ReadDir contract)",
